@@ -434,6 +434,9 @@ ASMJIT_FAVOR_SIZE Error FormatterInternal::format_register(
     if (reg_type == RegType::kVec64) {
       element_count /= 2u;
     }
+    else if (reg_type == RegType::kVec32) {
+      element_count /= 4u;
+    }
 
     ASMJIT_PROPAGATE(sb.append('.'));
     if (element_count) {
